@@ -52,3 +52,9 @@ func VerifC04ReorgCause(e error) error {
 	}
 	return nil
 }
+
+// VerifC04AddOwnBlock submits a block the way ChainManager.Receive does for message.AddBlock sent by the node's own
+// block factory (consensus/chain.ConnectBlock): with the block state the factory executed the transactions on.
+func VerifC04AddOwnBlock(cs *ChainService, blk *types.Block, bstate *state.BlockState) error {
+	return cs.addBlock(blk, bstate, "")
+}
